@@ -291,8 +291,11 @@ def run_case(desc):
     strata = ['entry:' + name, 'cls:' + cls, 'family:' + ent.family]
     region = zoo.region(op, desc)
 
-    def sig(clause, extra=''):
-        return 'C03|{}|{}|{}{}'.format(clause, cls, region,
+    def sig(clause, extra='', exc=None):
+        # third field: the raise site for exceptions (root cause), else the
+        # class of the operator
+        who = cls if exc is None else zoo.raise_site(exc)
+        return 'C03|{}|{}|{}{}'.format(clause, who, region,
                                        '|' + extra if extra else '')
 
     def check_x(where):
@@ -305,16 +308,14 @@ def run_case(desc):
     try:
         r = op(x)
     except NotImplementedError as e:
-        if 'does not implement `_call`' not in str(e):
-            raise Violation(sig('oop-raises', 'NotImplementedError'),
-                            '{}: op(x) raised {!r}'.format(name, e))
-        # documented: the class offers no evaluation (MoreauEnvelope,
-        # InfimalConvolution, default convex conjugate)
+        # documented "not offered": classes without evaluation
+        # (MoreauEnvelope, InfimalConvolution, default convex conjugate),
+        # gradients documented as not defined (GroupL1Norm, p = inf)
         return Outcome('rejected', strata=['call-not-offered:' + name])
     except Exception as e:  # noqa
         if zoo.innermost_is_harness(e):
             raise
-        raise Violation(sig('oop-raises', type(e).__name__),
+        raise Violation(sig('oop-raises', type(e).__name__, exc=e),
                         '{}: op(x) raised {!r}'.format(name, e))
     if r not in ran:
         raise Violation(sig('not-in-range'),
@@ -326,7 +327,8 @@ def run_case(desc):
     try:
         rr = op(x)
     except Exception as e:  # noqa
-        raise Violation(sig('oop-raises', type(e).__name__ + '|second-call'),
+        raise Violation(sig('oop-raises', type(e).__name__ + '|second-call',
+                            exc=e),
                         '{}: second op(x) raised {!r}'.format(name, e))
     if isinstance(ran, Field):
         same = (rr == r) or (rr != rr and r != r) or \
@@ -371,7 +373,8 @@ def run_case(desc):
                     raise
                 raise Violation(
                     sig('inplace-raises', type(e).__name__ +
-                        ('' if outorder == 'C' else '|out-' + outorder)),
+                        ('' if outorder == 'C' else '|out-' + outorder),
+                        exc=e),
                     '{}: op(x, out=y) raised {!r}'.format(name, e))
             if r2 is not y:
                 raise Violation(sig('identity'),
@@ -402,7 +405,7 @@ def run_case(desc):
         except Exception as e:  # noqa
             if zoo.innermost_is_harness(e):
                 raise
-            raise Violation(sig('arraylike-raises', type(e).__name__),
+            raise Violation(sig('arraylike-raises', type(e).__name__, exc=e),
                             '{}: op({}) raised {!r}'.format(name, form, e))
         if ra not in ran:
             raise Violation(sig('not-in-range', form),
